@@ -122,3 +122,34 @@ func Open(b cipher.Block, iv, aad, ct, tg []byte) ([]byte, bool) {
 	}
 	return gctr(b, inc32(j), ct), ok
 }
+
+// J0 exposes the pre-counter block for an IV (used to construct counter-wrap cases).
+func J0(b cipher.Block, iv []byte) [16]byte {
+	var h block
+	b.Encrypt(h[:], h[:])
+	return j0(b, h, iv)
+}
+
+// IVForJ0 constructs the 16-byte IV whose pre-counter block is exactly want:
+// for a one-block IV, J0 = (IV*H ^ L)*H with L = 0^64||[128]64, hence
+// IV = (J0 ^ L*H) * H^-2. Inversion by Fermat: H^-1 = H^(2^128-2).
+func IVForJ0(b cipher.Block, want [16]byte) []byte {
+	var h block
+	b.Encrypt(h[:], h[:])
+	// h^-1 = h^(2^128-2) = prod_{i=1..127} h^(2^i)
+	var inv block
+	inv[0] = 0x80 // multiplicative identity (bit 0 is the coefficient of x^0)
+	sq := h
+	for i := 1; i < 128; i++ {
+		sq = mul(sq, sq)
+		inv = mul(inv, sq)
+	}
+	var l block
+	binary.BigEndian.PutUint64(l[8:], 128)
+	x := mul(l, h)
+	for i := range x {
+		x[i] ^= want[i]
+	}
+	x = mul(mul(x, inv), inv)
+	return x[:]
+}
